@@ -589,7 +589,9 @@ pub fn suite_serde(ctx: &Ctx, thorough: bool) {
     // typed PURLs whose name rule has work to do (mixed ASCII / non-ASCII capitals, separator runs, final sigma): the value that
     // comes back from the data format is the value that went in
     for s in ["pkg:nuget/ÆA@1.0", "pkg:nuget/AÆ", "pkg:NuGet/SociÉté.Core", "pkg:pypi/A_É", "pkg:pypi/É__a.-b", "pkg:pypi/ΟΔΟΣ", "pkg:nuget/ΟΔΟΣ.Σ", "pkg:nuget/ǅx",
-              "pkg:npm/%40Scope/Name@1?Arch=X", "pkg:maven/G/A@1?checksum=SHA1:AB,md5:00", "pkg:t/n?checksum=ΑΣ:00,b:11"] { serde_one(ctx, s); }
+              "pkg:npm/%40Scope/Name@1?Arch=X", "pkg:maven/G/A@1?checksum=SHA1:AB,md5:00", "pkg:t/n?checksum=ΑΣ:00,b:11",
+              // fifteenth round: the scheme in other letter cases, white space around the string -- refused by both or accepted by both
+              "PKG:t/n", "Pkg:npm/%40s/n@1", "pkG:t/n?k=v", "PKG", "pk:t/n", " pkg:t/n", "pkg:t/n ", "pkg:t/n#s ", "pkg:t/ns/#x/name#sub", "pkg:t/ns/?x/name?k=v", "pkg:t/n\n"] { serde_one(ctx, s); }
     {
         let base = GenericPurl::<String>::from_str("pkg:t/ns/n@1?a=1&b=2&c=3&d=4&e=5#s").unwrap();
         let mut vals: Vec<GenericPurl<String>> = vec![];
